@@ -160,7 +160,7 @@ def main():
                  "Known findings: /verif/known_findings.json (mechanism-keyed; open: C01 column-name collision and big-integer metric values next to float metrics, C04 adjacent-float scores, C09 duplicate "
                  "multiplier vectors when a group is absent from an event, C15 rank-deficient block with centring round-off above lstsq's cut-off, C19 "
                  "EG nu overwritten / CorrelationRemover refit with another width). 21 genuine defects were repaired by 'fix:' commits in /repo "
-                 "(DESIGN.md section 5). Detection record: selftest/results.json (mutants) and seeded/*/meta.json (170 independently seeded "
+                 "(DESIGN.md section 5). Detection record: selftest/results.json (mutants) and seeded/*/meta.json (176 independently seeded "
                  "changes), summarised in DESIGN.md section 8. C16 covers the PyTorch engine only (TensorFlow is not installed).",
         "not_applicable": na,
     }
